@@ -77,9 +77,9 @@ type c35Ref struct {
 }
 
 type c35Txn struct {
-	Kind    string `json:"kind"` // appl pay axfer afrz acfg keyreg
+	Kind    string         `json:"kind"` // appl pay axfer afrz acfg keyreg
 	Sender  basics.Address `json:"-"`
-	SenderS string `json:"sender"`
+	SenderS string         `json:"sender"`
 	// appl
 	AppID     uint64           `json:"app_id,omitempty"` // 0 = creation
 	Version   uint64           `json:"program_version,omitempty"`
@@ -775,17 +775,17 @@ func (m *c35Model) box(app uint64, name string, refs map[string]bool) (bool, str
 // probes: one access opcode on one resource
 
 type c35Probe struct {
-	Op     string     `json:"op"`
-	Acct   c35AcctArg `json:"-"`
-	AcctS  string     `json:"account_arg,omitempty"`
-	Ref    uint64     `json:"int_arg,omitempty"`
-	Name   string     `json:"box_name,omitempty"`
-	Name2  string     `json:"second_box_name,omitempty"`
+	Op    string     `json:"op"`
+	Acct  c35AcctArg `json:"-"`
+	AcctS string     `json:"account_arg,omitempty"`
+	Ref   uint64     `json:"int_arg,omitempty"`
+	Name  string     `json:"box_name,omitempty"`
+	Name2 string     `json:"second_box_name,omitempty"`
 	// inner transactions: asset / second app / whether an account is passed
-	InAsset  uint64 `json:"inner_asset,omitempty"`
-	InApp2   uint64 `json:"inner_foreign_app,omitempty"`
-	HasAcct  bool   `json:"inner_has_account,omitempty"`
-	Source string     `json:"program"`
+	InAsset uint64 `json:"inner_asset,omitempty"`
+	InApp2  uint64 `json:"inner_foreign_app,omitempty"`
+	HasAcct bool   `json:"inner_has_account,omitempty"`
+	Source  string `json:"program"`
 }
 
 type c35OpInfo struct {
@@ -1667,12 +1667,13 @@ func TestVerifC35Resources(t *testing.T) {
 	// every rule of the model must have been exercised in both directions
 	for _, k := range []string{"ok:account-shared-by-group", "ok:asset-shared-by-group", "ok:app-shared-by-group", "ok:holding-shared-by-one-transaction",
 		"ok:locals-shared-by-one-transaction", "ok:created-app-account", "ok:foreign-app-account", "ok:own-app-account", "ok:box-referenced-in-group",
-		"ok:unnamed-box-of-created-app", "ok:holding-of-created-asset", "ok:locals-of-created-app",
+		"ok:unnamed-box-of-created-app", "ok:locals-of-created-app",
 		"rejected:cross-product-missing", "rejected:account-not-available", "rejected:asset-not-available", "rejected:app-not-available",
 		"rejected:box-not-referenced", "rejected:unnamed-box-quota-exhausted", "rejected:account-index-out-of-range", "rejected:second-access",
 		"ok:inner-axfer-holdings-available", "rejected:inner-axfer", "ok:inner-appl-old-callee-cross-product-available", "rejected:inner-appl-old-callee", "ok:inner-appl-callee-checks-itself"} {
 		c.Require(k, 5)
 	}
+	c.Require("ok:holding-of-created-asset", 3) // the rarest rule (about 13 per 60000 cases)
 }
 
 func c35ErrStr(err error) string {
